@@ -99,6 +99,11 @@ class RealFs(RealVolumeOf, Fs):
             # would copy the tree, delete what it can and still fail
             if e.errno != errno.EXDEV:
                 raise
+            if os.path.lexists(dest):
+                # shutil.move() would move the entry INSIDE an existing
+                # directory (or overwrite an existing file): the name is
+                # taken, whatever the earlier probe said
+                raise OSError(errno.EEXIST, os.strerror(errno.EEXIST), dest)
             return fs.move(path, dest)
 
     def remove_file(self, path):
